@@ -21,7 +21,7 @@ var P = h.New("C02", "exploration",
 func TestMain(m *testing.M) { os.Exit(P.Main(m)) }
 func TestReplay(t *testing.T) { P.Replay(t) }
 
-var relKinds = []string{"parent", "sibling", "textext", "top", "child", "unrelated", "textcut", "lookalike", "lookalike"}
+var relKinds = []string{"parent", "sibling", "textext", "top", "child", "unrelated", "textcut", "lookalike", "lookalike", "onechar", "onechar"}
 
 // lookalike: one character of the command replaced by a DIFFERENT character that some notion of "the same" merges
 // with it: Unicode case-fold partners that are both lower case (σ/ς, µ/μ, s/ſ, θ/ϑ, k/K-as-kelvin is upper), a
@@ -41,6 +41,35 @@ func rewrite(t *rapid.T, cur string, kind string) string {
 		return "/" + strings.Join(s, "/")
 	}
 	switch kind {
+	case "onechar":
+		// ONE character replaced by another of the same width, at the start, at the end or in the middle of the
+		// text: same length, same segment count, a different command
+		var at []int
+		for i := 0; i < len(cur); i++ {
+			if b := cur[i]; (b >= 'a' && b <= 'z') || (b >= '0' && b <= '9') {
+				at = append(at, i)
+			}
+		}
+		if len(at) == 0 {
+			return cur
+		}
+		var i int
+		switch rapid.IntRange(0, 4).Draw(t, "onechar_where") {
+		case 0:
+			i = at[0]
+		case 1:
+			i = at[len(at)-1]
+		default:
+			i = at[(len(at)/2+rapid.IntRange(-2, 2).Draw(t, "onechar_off")+len(at))%len(at)]
+		}
+		nb := byte('a')
+		if cur[i] >= '0' && cur[i] <= '9' {
+			nb = '0'
+		}
+		if cur[i] == nb {
+			nb++
+		}
+		return cur[:i] + string(nb) + cur[i+1:]
 	case "lookalike":
 		var cands [][2]string
 		for _, p := range lookalikes {
@@ -162,6 +191,14 @@ func run(c *h.Ctx, cs chain.Case) {
 			"ExecutionAllowed returned nil although the command is widened at %s\ninvocation cmd %q, link cmds %q\ncase: %+v",
 			where, cs.Inv.Cmd, cmds(cs), cs)
 	}
+	for i := 0; i+1 < len(cs.Links); i++ {
+		if a, b := cs.Links[i].Cmd, cs.Links[i+1].Cmd; len(a) == len(b) && a != b {
+			c.P.Class("adjacent-delegations:same-length-other-command")
+			if len(a) > 16 && a[:8] == b[:8] && a[len(a)-8:] == b[len(b)-8:] {
+				c.P.Class("adjacent-delegations:same-ends-other-middle")
+			}
+		}
+	}
 	if !r.R[7] && r.All(1, 6) && r.All(8, 9) {
 		c.P.NonTrivial([]any{len(cs.Links), off, cs.Dev}, map[string]any{"inv_cmd": cs.Inv.Cmd, "link_cmds": cmds(cs), "first_offending_pair": off, "allowed": d.Allowed, "dev": cs.Dev})
 		c.P.Class("offending@" + posClass(off, len(cs.Links)))
@@ -238,3 +275,61 @@ var storeProp = h.Define(P, "store", func(t *rapid.T) chain.StoreCase { return c
 	func(c *h.Ctx, sc chain.StoreCase) { chain.RunStore(c, sc, "C02") })
 
 func TestStore(t *testing.T) { storeProp.Check(t) }
+
+// TestLongCommandPairs: chains of 2..5 delegations over commands of the length real commands have (20..90 bytes), in
+// which ONE delegation - each position in turn - carries a command of the SAME LENGTH as the one it received that
+// differs from it in one or a few characters at the start, in the middle or at the end (another bucket, another
+// tenant, another verb), everything else conforming; and the unchanged chain as control. Every pair of adjacent
+// commands is judged by segment-wise coverage, whatever the two texts have in common.
+func TestLongCommandPairs(t *testing.T) {
+	bases := []string{"/storage/bucket-a/objects", "/crud/tenant-0017/records/update", "/0123456789abcdef0123456789abcdef/write", "/storage/eu-west-1/bucket-objects/object-versions/read", "/aaaaaaaaaaaaaaaaaaaaaaaaaaaaaaaaaaaaaaaa"}
+	n := 0
+	for _, base := range bases {
+		var twins []string
+		for _, at := range []int{1, 8, 9, len(base) / 2, len(base) - 10, len(base) - 9, len(base) - 8, len(base) - 1} {
+			if at < 1 || at >= len(base) || base[at] == '/' {
+				continue
+			}
+			nb := byte('b')
+			if base[at] == nb {
+				nb = 'c'
+			}
+			twins = append(twins, base[:at]+string(nb)+base[at+1:])
+		}
+		// two characters swapped in the middle (an anagram: same bytes, same length)
+		if m := len(base) / 2; base[m] != '/' && base[m+1] != '/' && base[m] != base[m+1] {
+			twins = append(twins, base[:m]+string(base[m+1])+string(base[m])+base[m+2:])
+		}
+		for length := 2; length <= 5; length++ {
+			for pos := -1; pos < length; pos++ {
+				for ti, tw := range twins {
+					if pos == -1 && ti > 0 {
+						break
+					}
+					for _, leafExt := range []string{"", "/get"} {
+						var cs chain.Case
+						cs.Inv = chain.Inv{Iss: 0, Sub: length % chain.NPrincipals, Aud: -1, NonceLen: 12, Cmd: base + leafExt}
+						for i := 0; i < length; i++ {
+							iss := (i + 1) % chain.NPrincipals
+							if i == length-1 {
+								iss = cs.Inv.Sub
+							}
+							l := chain.Link{Iss: iss, Aud: i % chain.NPrincipals, Sub: cs.Inv.Sub, Cmd: base, Nonce: byte(i)}
+							if i == 0 {
+								l.Cmd = base + leafExt
+							}
+							if i == pos {
+								l.Cmd = tw
+								cs.Dev = []string{fmt.Sprintf("same-length-twin@%d/%d", pos+1, length)}
+							}
+							cs.Links = append(cs.Links, l)
+						}
+						prop.One(t, cs)
+						n++
+					}
+				}
+			}
+		}
+	}
+	P.SetExtra("long_command_pair_chains", n)
+}
